@@ -1040,6 +1040,9 @@ def check_v2_reader_eval(chk) -> bool:
             kinds = list(full._cols.get("record_type", []))
             if models != [1, 1, 1, 2, 2] or kinds != ["ATOM", "ATOM", "HETATM", "ATOM", "HETATM"]:
                 other.append(f"a file with MODEL 1 (two atoms, TER, a water) and MODEL 2 (one atom, TER, a water) yields records {kinds} of models {models}")
+        second = whole([m(2), atom_line, "ENDMDL".ljust(80), "END".ljust(80)], "a file whose first line is MODEL 2")
+        if second is not None and [None if isna(v) else int(v) for v in second._cols.get("model", [])] != [2]:
+            other.append(f"a file whose first line is `MODEL        2` yields atoms of model(s) {list(second._cols.get('model', []))}: the first line of the file is not read")
         nomodel = whole([atom_line], "a file of one atom record")
         if nomodel is not None:
             if [int(v) for v in nomodel._cols.get("model", []) if not isna(v)] != [1]:
